@@ -3,6 +3,7 @@
 From Coq Require Import String.
 From Verif Require Import Bytes Base64 LineBreaker QP HeaderFold WordEnc Writer.
 From VerifGen Require Import Gen.
+From VerifProofs Require Import WordEncProofs.
 From Coq Require Import Lia ZifyBool ZifyNat ZifyN.
 Open Scope nat_scope.
 
@@ -150,8 +151,12 @@ Qed.
 
 Definition enc_canon (e : enc) : Prop := enc_name e <> [] /\ enc_of_name (enc_name e) = e.
 
+Definition wenc_ok (w : N) : Prop := w = 113%N \/ w = 98%N.
+
 Definition file_enc_ok (f : file) : Prop :=
-  match f_enc f with Some e => enc_canon e | None => True end.
+  match f_enc f with Some e => enc_canon e | None => True end /\
+  wf_bytes (f_name f) = true /\
+  (forall v, get_h h_cid (f_hdr f) = Some v -> wf_bytes v = true).
 
 (* obligation on the source-derived encoding names *)
 Lemma gen_enc_b64_canon : enc_canon EncB64.
@@ -160,11 +165,53 @@ Proof. split; [vm_compute; discriminate|vm_compute; reflexivity]. Qed.
 Lemma app_lit_nonempty : forall (a : bytes) x b, a ++ x :: b <> [].
 Proof. intros [|y a] x b; discriminate. Qed.
 
+Lemma set_kv_same : forall k v h, lookup k h = Some v -> set_kv k v h = h.
+Proof.
+  intros k v h. unfold lookup. induction h as [|[hk hv] t IH]; cbn; [discriminate|].
+  destruct (bytes_eqb hk k) eqn:E; cbn.
+  - intros H. inversion H; subst. apply bytes_eqb_eq in E. now subst.
+  - intros H. now rewrite IH.
+Qed.
+
+Lemma get_h_lookup : forall k h v, get_h k h = Some v -> lookup k h = Some v.
+Proof. intros k h v H. unfold get_h in H. destruct (lookup k h) as [[|x l]|]; inversion H; reflexivity. Qed.
+
+Lemma reencode_get_other : forall k k' w h, bytes_eqb k' k = false -> get_h k (reencode k' w h) = get_h k h.
+Proof.
+  intros k k' w h Hne. unfold reencode. destruct (get_h k' h); [|reflexivity]. now apply get_h_set_kv_other.
+Qed.
+
+Lemma reencode_get_same : forall k w h v, get_h k h = Some v ->
+  get_h k (reencode k w h) = Some (word_encode w v).
+Proof.
+  intros k w h v H. unfold reencode. rewrite H. apply get_h_set_kv_same.
+  apply word_encode_nonempty. now apply get_h_some_nonempty in H.
+Qed.
+
+Lemma reencode_none : forall k w h, get_h k h = None -> reencode k w h = h.
+Proof. intros k w h H. unfold reencode. now rewrite H. Qed.
+
+Lemma reencode_fix : forall k w h v,
+  get_h k h = Some v -> word_encode w v = v -> reencode k w h = h.
+Proof.
+  intros k w h v H Hw. unfold reencode. rewrite H, Hw. apply set_kv_same. now apply get_h_lookup.
+Qed.
+
+Lemma sanitize_wf : forall s, wf_bytes s = true -> wf_bytes (sanitize s) = true.
+Proof.
+  unfold wf_bytes, sanitize. induction s as [|b t IH]; cbn [map forallb]; [reflexivity|].
+  intros H. apply andb_true_iff in H. destruct H as [Hb Ht]. rewrite (IH Ht), andb_true_r.
+  destruct (Gen.sanitize_bad b); [reflexivity|exact Hb].
+Qed.
+
+Lemma wf_bytes_app : forall a b, wf_bytes a = true -> wf_bytes b = true -> wf_bytes (a ++ b) = true.
+Proof. intros a b Ha Hb. unfold wf_bytes in *. now rewrite forallb_app, Ha, Hb. Qed.
+
 Lemma file_hdrs_idem : forall w a f,
-  file_enc_ok f ->
+  wenc_ok w -> file_enc_ok f ->
   file_hdrs w a (with_hdr f (fst (file_hdrs w a f))) = file_hdrs w a f.
 Proof.
-  intros w a f Hok. unfold file_hdrs. cbn [f_hdr f_name f_mime f_enc f_desc with_hdr fst].
+  intros w a f Hw (Hok & Hname & Hcidwf). unfold file_hdrs. cbn [f_hdr f_name f_mime f_enc f_desc with_hdr fst].
   set (V1 := f_mime f ++ bs "; name=" ++ bs """" ++ word_encode w (sanitize (f_name f)) ++ bs """").
   set (h1 := ensure h_ctype V1 (f_hdr f)).
   set (e := file_enc f h1).
@@ -174,6 +221,8 @@ Proof.
   assert (HV1 : V1 <> []) by (unfold V1; cbn; apply app_lit_nonempty).
   assert (HV4 : V4 <> []) by (unfold V4; destruct a; cbn; discriminate).
   assert (HV5 : V5 <> []) by (unfold V5; cbn; discriminate).
+  assert (HV5wf : wf_bytes V5 = true).
+  { unfold V5. apply wf_bytes_app; [reflexivity|]. apply wf_bytes_app; [now apply sanitize_wf|reflexivity]. }
   assert (He : enc_canon e).
   { unfold e, file_enc. destruct (get_h h_cte h1) as [v|] eqn:E.
     - split.
@@ -184,62 +233,86 @@ Proof.
         destruct (bytes_eqb v Gen.enc_b64) eqn:E2; [reflexivity|].
         destruct (bytes_eqb v Gen.enc_none) eqn:E3; [reflexivity|].
         cbn [enc_name]. now rewrite E1, E2, E3.
-    - unfold file_enc_ok in Hok. destruct (f_enc f) as [e0|]; [exact Hok|exact gen_enc_b64_canon]. }
+    - destruct (f_enc f) as [e0|]; [exact Hok|exact gen_enc_b64_canon]. }
   destruct He as [Hne Hcanon].
   set (h3 := match f_desc f with [] => h2 | d => ensure h_cdesc (word_encode w d) h2 end).
   set (h4 := ensure h_cdisp V4 h3).
   set (h5 := if a then h4 else ensure h_cid V5 h4).
+  set (h6 := reencode h_cid w h5).
   (* facts about the final cache *)
-  assert (G1 : exists x, get_h h_ctype h5 = Some x).
-  { unfold h5. destruct a; [|rewrite ensure_get_other by reflexivity];
+  assert (G1 : exists x, get_h h_ctype h6 = Some x).
+  { unfold h6. rewrite reencode_get_other by reflexivity.
+    unfold h5. destruct a; [|rewrite ensure_get_other by reflexivity];
     unfold h4; rewrite ensure_get_other by reflexivity;
     unfold h3; (destruct (f_desc f); [|rewrite ensure_get_other by reflexivity]);
     unfold h2; rewrite ensure_get_other by reflexivity;
     unfold h1; rewrite ensure_get_same by exact HV1; eauto. }
-  assert (G2 : get_h h_cte h5 = Some (match get_h h_cte h1 with Some v => v | None => enc_name e end)).
-  { unfold h5. destruct a; [|rewrite ensure_get_other by reflexivity];
+  assert (G2 : get_h h_cte h6 = Some (match get_h h_cte h1 with Some v => v | None => enc_name e end)).
+  { unfold h6. rewrite reencode_get_other by reflexivity.
+    unfold h5. destruct a; [|rewrite ensure_get_other by reflexivity];
     unfold h4; rewrite ensure_get_other by reflexivity;
     unfold h3; (destruct (f_desc f); [|rewrite ensure_get_other by reflexivity]);
     unfold h2; now rewrite ensure_get_same by exact Hne. }
-  assert (G3 : f_desc f <> [] -> exists x, get_h h_cdesc h5 = Some x).
-  { intros Hd. unfold h5. destruct a; [|rewrite ensure_get_other by reflexivity];
+  assert (G3 : f_desc f <> [] -> exists x, get_h h_cdesc h6 = Some x).
+  { intros Hd. unfold h6. rewrite reencode_get_other by reflexivity.
+    unfold h5. destruct a; [|rewrite ensure_get_other by reflexivity];
     unfold h4; rewrite ensure_get_other by reflexivity;
     unfold h3; (destruct (f_desc f) as [|d0 dr] eqn:Ed; [congruence|]);
     rewrite ensure_get_same by (apply word_encode_nonempty; discriminate); eauto. }
-  assert (G4 : exists x, get_h h_cdisp h5 = Some x).
-  { unfold h5. destruct a; [|rewrite ensure_get_other by reflexivity];
+  assert (G4 : exists x, get_h h_cdisp h6 = Some x).
+  { unfold h6. rewrite reencode_get_other by reflexivity.
+    unfold h5. destruct a; [|rewrite ensure_get_other by reflexivity];
     unfold h4; rewrite ensure_get_same by exact HV4; eauto. }
-  assert (G5 : a = false -> exists x, get_h h_cid h5 = Some x).
-  { intros Ha. unfold h5. rewrite Ha. rewrite ensure_get_same by exact HV5. eauto. }
+  (* the Content-ID entry of the final cache is a fixpoint of the encoder *)
+  assert (Hcid0 : get_h h_cid h4 = get_h h_cid (f_hdr f)).
+  { unfold h4; rewrite ensure_get_other by reflexivity;
+    unfold h3; (destruct (f_desc f); [|rewrite ensure_get_other by reflexivity]);
+    unfold h2; rewrite ensure_get_other by reflexivity;
+    unfold h1; now rewrite ensure_get_other by reflexivity. }
+  assert (G5 : (get_h h_cid h6 = None /\ get_h h_cid h5 = None /\ a = true) \/
+               (exists v, get_h h_cid h6 = Some v /\ word_encode w v = v)).
+  { destruct (get_h h_cid h5) as [v5|] eqn:E5.
+    - right. exists (word_encode w v5). split; [unfold h6; now apply reencode_get_same|].
+      apply word_encode_idem; [exact Hw|].
+      unfold h5 in E5. destruct a.
+      + rewrite Hcid0 in E5. now apply Hcidwf.
+      + rewrite ensure_get_same in E5 by exact HV5. rewrite Hcid0 in E5.
+        destruct (get_h h_cid (f_hdr f)) as [u|] eqn:Eu; inversion E5; subst; [now apply Hcidwf|exact HV5wf].
+    - left. split; [unfold h6; now rewrite reencode_none|]. split; [reflexivity|].
+      unfold h5 in E5. destruct a; [reflexivity|]. rewrite ensure_get_same in E5 by exact HV5. discriminate. }
   (* second pass *)
   destruct G1 as [x1 G1]. rewrite (ensure_id _ V1 _ _ G1).
-  assert (Ee : file_enc f h5 = e).
+  assert (Ee : file_enc f h6 = e).
   { unfold file_enc at 1. rewrite G2. destruct (get_h h_cte h1) as [v|] eqn:E.
     - unfold e, file_enc. now rewrite E.
     - exact Hcanon. }
-  change (file_enc (with_hdr f h5) h5) with (file_enc f h5).
+  change (file_enc (with_hdr f h6) h6) with (file_enc f h6).
   rewrite Ee. rewrite (ensure_id _ (enc_name e) _ _ G2).
   destruct G4 as [x4 G4].
-  assert (H3 : match f_desc f with [] => h5 | d => ensure h_cdesc (word_encode w d) h5 end = h5).
+  assert (H3 : match f_desc f with [] => h6 | d => ensure h_cdesc (word_encode w d) h6 end = h6).
   { destruct (f_desc f) as [|d0 dr] eqn:Ed; [reflexivity|].
     destruct (G3 ltac:(discriminate)) as [x3 G3']. now rewrite (ensure_id _ _ _ _ G3'). }
   rewrite H3. rewrite (ensure_id _ V4 _ _ G4).
-  destruct a; [reflexivity|]. destruct (G5 eq_refl) as [x5 G5']. now rewrite (ensure_id _ V5 _ _ G5').
+  destruct G5 as [(N6 & N5 & Ha)|(v & S6 & Hfix)].
+  - subst a. now rewrite (reencode_none _ _ _ N6).
+  - destruct a.
+    + now rewrite (reencode_fix _ _ _ _ S6 Hfix).
+    + rewrite (ensure_id _ V5 _ _ S6). now rewrite (reencode_fix _ _ _ _ S6 Hfix).
 Qed.
 
 Lemma file_headers_idem : forall w a f,
-  file_enc_ok f -> file_headers w a (fst (file_headers w a f)) = file_headers w a f.
+  wenc_ok w -> file_enc_ok f -> file_headers w a (fst (file_headers w a f)) = file_headers w a f.
 Proof.
-  intros w a f Hok. unfold file_headers at 1 2. cbn [fst].
-  pose proof (file_hdrs_idem w a f Hok) as H.
+  intros w a f Hw Hok. unfold file_headers at 1 2. cbn [fst].
+  pose proof (file_hdrs_idem w a f Hw Hok) as H.
   unfold file_headers. rewrite H. reflexivity.
 Qed.
 
 Lemma map_file_headers_idem : forall w a files,
-  Forall file_enc_ok files ->
+  wenc_ok w -> Forall file_enc_ok files ->
   map (file_headers w a) (map fst (map (file_headers w a) files)) = map (file_headers w a) files.
 Proof.
-  intros w a files H. induction H as [|f r Hf Hr IH]; cbn [map]; [reflexivity|].
+  intros w a files Hw H. induction H as [|f r Hf Hr IH]; cbn [map]; [reflexivity|].
   now rewrite file_headers_idem, IH.
 Qed.
 
@@ -248,7 +321,7 @@ Proof.
   intros b rb H. unfold pick_boundary. destruct b as [|x t]; [cbn in H; discriminate|]. now rewrite H.
 Qed.
 
-Definition files_ok (m : msg) : Prop := Forall file_enc_ok (m_embeds m) /\ Forall file_enc_ok (m_attach m).
+Definition files_ok (m : msg) : Prop := wenc_ok (m_wenc m) /\ Forall file_enc_ok (m_embeds m) /\ Forall file_enc_ok (m_attach m).
 
 (* the render used well-formed boundaries and SetBoundary did not fail *)
 Definition clean (z : rmsg) : Prop :=
@@ -264,7 +337,7 @@ Theorem resolve_idem : forall d1 i1 rb1 d2 i2 rb2 m,
   files_ok m -> clean (resolve d1 i1 rb1 m) ->
   resolve d2 i2 rb2 (z_msg (resolve d1 i1 rb1 m)) = resolve d1 i1 rb1 m.
 Proof.
-  intros d1 i1 rb1 d2 i2 rb2 m [Hfe Hfa] Hclean.
+  intros d1 i1 rb1 d2 i2 rb2 m (Hw & Hfe & Hfa) Hclean.
   unfold resolve in *.
   destruct (if has_mixed m then pick_boundary (m_bmixed m) (nth_rb 0 rb1) else (m_bmixed m, false)) as [bm badm] eqn:Em.
   destruct (if has_related m then pick_boundary (m_brelated m) (nth_rb (if has_mixed m then 1 else 0) rb1) else (m_brelated m, false)) as [br badr] eqn:Er.
